@@ -227,6 +227,10 @@ class LBRun(object):
   # --- construction
   def build(self, world):
     self.world = world
+    self.clock_skew = 0.0
+    self.back_total = 0.0
+    self.freeze_until = 0.0
+    self.window_incomplete_until = 0.0
     cfg = self.cfg
     initial = [PORT0 + i for i in cfg['initial']]
     self.ssp = HSSP(self, initial, cfg.get('getservers_delay_ms', 0) / 1000.0)
@@ -298,14 +302,18 @@ class LBRun(object):
         while dq and worse(dq[-1][1], v_):
           dq.pop()
         dq.append((now_, v_))
-        while dq[0][0] < now_ - 30.0:
+        while dq[0][0] < now_ - (30.0 + self.back_total):
           dq.popleft()
       if s0 > 0 and L is not None:
         # any exponential smoothing with a 5 s constant is a weighted mean of the totals sampled at each event in
         # which everything older than 30 s weighs at most e^-6: the published value lies in the range of the last
         # 30 s of samples, widened by e^-6 x the range of all samples
         rlo, rhi = hist['minq'][0][1], hist['maxq'][0][1]
-        old = hist['first'] < now_ - 30.0
+        if now_ < self.window_incomplete_until:
+          # a backwards clock step has just widened the window (the clock guard freezes smoothing for as long as the
+          # step): until the retained samples cover it again only "a weighted mean of all samples" is demanded
+          rlo, rhi = hist['lo'], hist['hi']
+        old = hist['first'] < now_ - (30.0 + self.back_total)
         eps = (math.exp(-6.0) * (hist['hi'] - hist['lo']) if old else 0.0) + 1e-6
         avg_ = L * s0
         if old:
@@ -327,7 +335,7 @@ class LBRun(object):
         if s1 > s0 and s1 > a['max_size']:
           self.viol('C06', 'beyond-max-size', 'load-driven growth %d -> %d beyond max_size %d' % (s0, s1, a['max_size']))
         st = self.steady
-        if st is not None and loop.now() - st['start'] >= 30.0:
+        if st is not None and loop.now() - st['start'] >= 30.0 and loop.now() >= self.freeze_until + 30.0:
           avg = L * s0
           lvl = st['level']
           st['checked'] += 1
@@ -354,6 +362,19 @@ class LBRun(object):
 
     lb._AdjustAperture = adjust
     lb._ContractAperture = contract
+    # wall clock as the aperture's smoothing sees it: virtual time plus a skew that an op may step backwards
+    import scales.varz as _varz
+    run = self
+    real_time_mod = _varz.time
+
+    class _SkewedTime(object):
+      def time(self_):
+        return loop.now() + run.clock_skew
+
+      def __getattr__(self_, name):
+        return getattr(real_time_mod, name)
+    _varz.time = _SkewedTime()
+    self.world.cleanups.append(lambda: setattr(_varz, 'time', real_time_mod))
     self.n_adjust = 0
     self.load_samples = {'first': None, 'lo': 0, 'hi': 0, 'n': 0, 'minq': collections.deque(), 'maxq': collections.deque()}
 
@@ -374,6 +395,8 @@ class LBRun(object):
     for ch in self.live_channels().values():
       if not ch.close_steps:
         ch._state = ChannelState.Open
+    if loop.now() < self.freeze_until:
+      advance(self.freeze_until - loop.now())      # the smoothing clock is frozen after a backwards step: let it catch up first
     base = len(self.outstanding_reqs())
     self.service_time = 1.0 / rate
     stop = [False]
@@ -382,7 +405,7 @@ class LBRun(object):
       while not stop[0]:
         r = self.dispatch_raw()
         if r.completions:
-          gevent.sleep(0.001)
+          gevent.sleep(0.1)      # failed at once (no members): a caller that retries after a pause
         else:
           r.done = Event()
           r.done.wait()
@@ -768,6 +791,10 @@ class LBRun(object):
       if idle | set(heap_ports) != members:
         self.viol('C05', 'partition-mismatch', 'active %r + idle %r != server set %r' % (sorted(heap_ports), sorted(idle), sorted(members)))
         self.viol('C06', 'partition-mismatch', 'active %r + idle %r != server set %r' % (sorted(heap_ports), sorted(idle), sorted(members)))
+      a = self.cfg['aperture']
+      if len(heap_ports) < min(a['min_size'], len(members)) and idle:
+        # whatever shrank the active set (contraction, a member leaving or failing), idle members were there to take its place
+        self.viol('C06', 'active-below-min', '%d active, %d idle, min_size %d, %d members' % (len(heap_ports), len(idle), a['min_size'], len(members)))
 
   # --- interpreter
   def run_ops(self):
@@ -792,6 +819,17 @@ class LBRun(object):
         settle()
         if self.lb_init_done() and self.ssp.q.empty():
           self.note_removals(before_live)
+      elif k == 'leave_all':
+        # the whole server set goes away at once (every member leaves, loaded or not)
+        before_live = self.live_channels()
+        self.scan_log()
+        self.down_before = set(n.channel for n in self.nodes() if n.load >= 0)
+        for port in list(self.ssp.members):
+          self.op_leave(port - PORT0)
+        self.flags.add('all_members_left')
+        settle()
+        if self.lb_init_done() and self.ssp.q.empty():
+          self.note_removals(before_live)
       elif k == 'flap_pending':
         # a server that flaps while the client is still connecting to it (generator guidance only: the endpoint is
         # picked from the aperture's in-flight expansions; the oracle never looks at that set)
@@ -809,6 +847,13 @@ class LBRun(object):
             self.note_removals(before_live)
       elif k == 'advance':
         advance(op[1] / 1000.0)
+      elif k == 'clock_back':
+        # the wall clock steps backwards (NTP correction, VM resume); time itself goes on
+        self.clock_skew -= op[1]
+        self.back_total += op[1]
+        self.freeze_until = max(self.freeze_until, loop.now()) + op[1]
+        self.window_incomplete_until = loop.now() + self.back_total
+        self.flags.add('clock_stepped_back')
       elif k == 'steady':
         self.op_steady(op[1], op[2], op[3])
       else:
